@@ -86,7 +86,7 @@ func (f *Frame) execInstr(ins ssa.Instruction, st *State) {
 		switch bt := base.Typ.Underlying().(type) {
 		case *types.Slice:
 			f.nopanic(st, "index", x.Pos(), and(app(SBool, "<=", intLit(0), idx), app(SBool, "<", idx, base.Sl.Len)), "slice index in range")
-			f.set(x, &V{Typ: x.Type(), LV: &LVal{Kind: "elem", Base: base.Sl.Arr, Idx: u.define("idx", app(SInt, "+", base.Sl.Off, idx)), Key: "E:" + typeKey(bt.Elem()), Typ: bt.Elem()}})
+			f.set(x, &V{Typ: x.Type(), LV: &LVal{Kind: "elem", Base: base.Sl.Arr, Idx: u.define("idx", u.sidx(base.Sl.Off, idx)), Key: "E:" + typeKey(bt.Elem()), Typ: bt.Elem()}})
 		case *types.Pointer:
 			at := bt.Elem().Underlying().(*types.Array)
 			if base.LV != nil {
@@ -488,7 +488,11 @@ func (f *Frame) convert(st *State, a *V, to types.Type, pos token.Pos) *V {
 	}
 	if isInteger(from) && ts == SStr {
 		fn := u.declareFun("s.fromrune", []Sort{SInt}, SStr)
-		return &V{Typ: to, T: app(SStr, fn, a.T)}
+		r := app(SStr, fn, a.T)
+		// a rune encodes to 1..4 bytes; ASCII to exactly itself
+		u.assume(st, and(app(SBool, ">=", strLen(r), intLit(1)), app(SBool, "<=", strLen(r), intLit(4)),
+			implies(and(app(SBool, ">=", a.T, intLit(0)), app(SBool, "<", a.T, intLit(128))), and(eq(strLen(r), intLit(1)), eq(strAt(r, intLit(0)), a.T)))))
+		return &V{Typ: to, T: r}
 	}
 	if s1, ok := scalarSort(from); ok && s1 == ts && ts != "" {
 		return &V{Typ: to, T: a.T}
